@@ -220,3 +220,24 @@ pub fn c06_u(r: f32, rsi: f32) -> Option<f32> {
 pub fn c09_n50(a: f32, c: f32, w: f32, v: f32) -> f32 {
     0.692 * (a * c + w) / v
 }
+
+// ---- C08: a scope filter that also admits adiabatic elements
+#[derive(PartialEq, Clone, Copy)]
+pub enum C08Bounds {
+    EXTERIOR,
+    INTERIOR,
+    GROUND,
+    ADIABATIC,
+}
+pub struct C08Wall {
+    pub is_tenv: bool,
+    pub bounds: C08Bounds,
+    pub a: f32,
+}
+pub fn c08_scope(walls: &[C08Wall]) -> f32 {
+    walls
+        .iter()
+        .filter(|w| w.is_tenv && (w.bounds == C08Bounds::EXTERIOR || w.bounds == C08Bounds::GROUND || w.bounds == C08Bounds::ADIABATIC))
+        .map(|w| w.a)
+        .sum()
+}
